@@ -48,17 +48,18 @@ type gDirective struct {
 	rep  bool
 }
 type project struct {
-	name    string
-	types   []*gType
-	dirs    []*gDirective
-	nfiles  int
-	cfg     map[string]string // boolean / scalar top-level options
-	exec    string            // single | follow
-	worker  int
-	model   string // same | pkg
-	res     string // none | single | follow
-	resMark []string
-	notes   []string
+	name     string
+	types    []*gType
+	dirs     []*gDirective
+	nfiles   int
+	cfg      map[string]string // boolean / scalar top-level options
+	exec     string            // single | follow
+	worker   int
+	model    string // same | pkg
+	res      string // none | single | follow
+	resMark  []string
+	notes    []string
+	inputRes int // input-object fields configured as resolvers
 }
 
 var scalarOut = []string{"Int", "Float", "String", "Boolean", "ID", "Time", "Any", "Map"}
@@ -703,6 +704,28 @@ func genProject(r *rng.R, name string, tier string) *project {
 			p.notes = append(p.notes, "rootref:"+h.name+"."+name+":"+f.typ)
 		}
 	}
+	// --- which KIND of type carries a resolver field: an INPUT object (`models: <Input>: fields: <f>: resolver: true`;
+	// drawn last, for the same reason). unmarshalInput<Input> then calls ec.resolvers.<Input>().<Field>(ctx, &it, data)
+	// and ResolverRoot - one copy per exec layout - must list <Input>(). Never on an input whose name starts with an
+	// underscore (the defect class of known finding F17e: `_ThingResolver` is not exported).
+	if r.Below(3) == 0 {
+		k := 1 + r.Below(3)
+		for j := 0; j < k; j++ {
+			t := p.byName(pick(r, inputs))
+			if strings.HasPrefix(t.name, "_") || len(t.fields) == 0 {
+				continue
+			}
+			m := t.name + "." + t.fields[r.Below(len(t.fields))].name
+			dup := false
+			for _, x := range p.resMark {
+				dup = dup || x == m
+			}
+			if !dup {
+				p.resMark = append(p.resMark, m)
+				p.inputRes++
+			}
+		}
+	}
 	return p
 }
 
@@ -887,7 +910,7 @@ func runSchemas(outDir string, n int, seed uint64, tier string) {
 			fmt.Fprintln(os.Stderr, err)
 			os.Exit(1)
 		}
-		fmt.Fprintf(out, "project\t%s\texec=%s worker=%d model=%s resolver=%s files=%d types=%d funcsyntax=%s rootrefs=%d\n", p.name, p.exec, p.worker, p.model, p.res, p.nfiles, len(p.types), p.cfg["use_function_syntax_for_execution_context"], len(p.notes))
+		fmt.Fprintf(out, "project\t%s\texec=%s worker=%d model=%s resolver=%s files=%d types=%d funcsyntax=%s rootrefs=%d inputres=%d\n", p.name, p.exec, p.worker, p.model, p.res, p.nfiles, len(p.types), p.cfg["use_function_syntax_for_execution_context"], len(p.notes), p.inputRes)
 	}
 	writeDirected(outDir)
 }
